@@ -304,11 +304,11 @@ int reader_init_block_reader(struct reftable_reader *r, struct block_reader *br,
 
 	if (block_typ == BLOCK_TYPE_LOG) {
 		/* block_size is the inflated size. Incompressible data
-		   deflates to slightly more than its size (stored blocks,
-		   zlib header and checksum): read enough for the worst
-		   case. */
-		block_size += (block_size >> 12) + (block_size >> 14) +
-			      (block_size >> 25) + 13;
+		   deflates to slightly more than its size: 5 bytes per
+		   stored block (the Go writer adds an empty final one),
+		   zlib header and checksum. Read generously more than any
+		   deflater needs. */
+		block_size += (block_size >> 10) + 64;
 	}
 
 	if (block_size > guess_block_size) {
